@@ -144,6 +144,12 @@ func genC05(g *G, sc *Scenario, tier string) {
 					uniqueMark(ents, mark+c.Datasets[pi])
 					parts = append(parts, Part{DS: c.Datasets[pi], Ents: ents})
 				}
+				if g.P(0.1) {
+					// a transaction naming a dataset that does not exist must be rejected as a whole
+					parts = append(parts, Part{DS: "ghost", Ents: []Ent{{"id": MkE + "g" + mark, "props": map[string]any{}, "refs": map[string]any{}}}})
+					ops = append(ops, Op{K: "txn", Parts: parts, M: map[string]any{"invalid": true}})
+					continue
+				}
 				if g.P(sc0(sc, "pCoreInTxn", 0.008)) {
 					parts = append(parts, Part{DS: "core.Dataset", Ents: []Ent{{"id": MkE + "x", "props": map[string]any{MkS + "w": mark}, "refs": map[string]any{}}}})
 				}
@@ -152,13 +158,35 @@ func genC05(g *G, sc *Scenario, tier string) {
 				ds := g.Pick(c.Datasets)
 				ents := g.batch(c, m, ds)
 				uniqueMark(ents, mark)
-				ops = append(ops, Op{K: "batch", DS: ds, Ents: ents})
+				if g.P(0.4) {
+					// an identifier (and a reference target) nobody has used before: new URI -> id mappings
+					ents = append(ents, Ent{"id": MkE + "n" + mark, "props": map[string]any{MkS + "w": mark + ".new"}, "refs": map[string]any{MkS + "p0": MkE + "r" + mark}})
+				}
+				op := Op{K: "batch", DS: ds, Ents: ents}
+				if g.P(0.12) {
+					// a batch the store must reject as a whole (nil reference)
+					bad := Ent{"id": MkE + "bad" + mark, "props": map[string]any{}, "refs": map[string]any{MkS + "p0": nil}}
+					pos := g.Intn(len(op.Ents) + 1)
+					op.Ents = append(op.Ents[:pos:pos], append([]Ent{bad}, op.Ents[pos:]...)...)
+					op.M = map[string]any{"invalid": true}
+				}
+				ops = append(ops, op)
 			}
 			if g.P(0.15) {
 				ops[len(ops)-1].Sleep = int64(g.PickInt([]int{1, 5, 2000}))
 			}
 		}
 		sc.Tasks = append(sc.Tasks, ops)
+	}
+	if g.P(0.3) && len(sc.Tasks) >= 2 {
+		// two clients create the same new dataset at the same time and then write to it
+		name := "raceA"
+		perm := g.r.Perm(len(sc.Tasks))
+		for k, ti := range perm[:2] {
+			pre := []Op{{K: "createDataset", DS: name, M: map[string]any{"race": true}},
+				{K: "batch", DS: name, Ents: []Ent{{"id": fmt.Sprintf("%src%d", MkE, k), "props": map[string]any{MkS + "w": fmt.Sprintf("race%d", k)}, "refs": map[string]any{}}}}}
+			sc.Tasks[ti] = append(pre, sc.Tasks[ti]...)
+		}
 	}
 	nr := g.Range(0, 2)
 	for rr := 0; rr < nr; rr++ {
@@ -415,6 +443,30 @@ func genC07(g *G, sc *Scenario, tier string) {
 				ents := g.batch(c, m, ds)
 				m.Batch(ds, ents)
 				sc.Ops = append(sc.Ops, Op{K: "batch", DS: ds, Ents: ents})
+			}
+		}
+	}
+	// a client that keeps using a dataset handle it fetched earlier
+	if g.P(0.35) && len(sc.Ops) > 3 {
+		at := g.Intn(len(sc.Ops) / 2)
+		name := g.Pick([]string{"dsA", "dsB", "dsC"})
+		ops := append([]Op(nil), sc.Ops[:at]...)
+		ops = append(ops, Op{K: "grab", DS: name})
+		rest := sc.Ops[at:]
+		nst := g.Range(1, 3)
+		for i, op := range rest {
+			ops = append(ops, op)
+			if nst > 0 && g.P(float64(nst)/float64(len(rest)-i)) {
+				ops = append(ops, Op{K: "batchStale", DS: name, Ents: []Ent{g.freshEnt(c, g.Pick(c.Pool))}})
+				nst--
+			}
+		}
+		sc.Ops = ops
+		mgmtOps = nil
+		for i, op := range sc.Ops {
+			switch op.K {
+			case "deleteDataset", "createDataset", "renameDataset", "gc":
+				mgmtOps = append(mgmtOps, i)
 			}
 		}
 	}
